@@ -55,6 +55,7 @@ class Exec:
         st.pre_defined = pre_defined
         self.nstep += 1
         self.count("op:" + op[0])
+        self.count("events", len(trace))
         return st
 
     # ---- C01 oracle --------------------------------------------------------
